@@ -26,9 +26,27 @@ INNER_SCRIPT = [{"prim": "parameter", "args": [UNIT]}, {"prim": "storage", "args
                                            {"prim": "PAIR"}]]}]
 
 
-def instr(name):
+def _inner(code):
+    return [{"prim": "parameter", "args": [UNIT]}, {"prim": "storage", "args": [UNIT]}, {"prim": "code", "args": [code]}]
+
+
+# scripts of originated contracts: they are contracts of their own and may use the instructions a view may not (SELF is left out:
+# the statement's "SELF anywhere" is not refined for nested scripts)
+INNER_SCRIPTS = [
+    INNER_SCRIPT,
+    _inner([{"prim": "DROP"}, {"prim": "NONE", "args": [{"prim": "key_hash"}]}, {"prim": "SET_DELEGATE"}, {"prim": "NIL", "args": [{"prim": "operation"}]},
+            {"prim": "SWAP"}, {"prim": "CONS"}, {"prim": "UNIT"}, {"prim": "SWAP"}, {"prim": "PAIR"}]),
+    _inner([{"prim": "CDR"}, {"prim": "NIL", "args": [{"prim": "operation"}]}, {"prim": "SENDER"}, {"prim": "CONTRACT", "args": [UNIT]},
+            {"prim": "IF_NONE", "args": [[], [{"prim": "AMOUNT"}, {"prim": "UNIT"}, {"prim": "TRANSFER_TOKENS"}, {"prim": "CONS"}]]}, {"prim": "PAIR"}]),
+    _inner([{"prim": "CDR"}, {"prim": "UNIT"}, {"prim": "AMOUNT"}, {"prim": "NONE", "args": [{"prim": "key_hash"}]},
+            {"prim": "CREATE_CONTRACT", "args": [INNER_SCRIPT]}, {"prim": "DROP"}, {"prim": "NIL", "args": [{"prim": "operation"}]}, {"prim": "SWAP"},
+            {"prim": "CONS"}, {"prim": "PAIR"}]),
+]
+
+
+def instr(name, variant=0):
     if name == "CREATE_CONTRACT":
-        return {"prim": name, "args": [INNER_SCRIPT]}
+        return {"prim": name, "args": [INNER_SCRIPTS[variant % len(INNER_SCRIPTS)]]}
     if name == "SELF%":
         return {"prim": "SELF", "annots": ["%foo"]}
     return {"prim": name}
@@ -48,7 +66,7 @@ def node(draw, depth):
     if kind == "plain":
         return instr(draw(st.sampled_from(PLAIN)))
     if kind == "restricted":
-        return instr(draw(st.sampled_from(RESTRICTED)))
+        return instr(draw(st.sampled_from(RESTRICTED)), draw(st.integers(0, 3)))
     if kind == "self":
         if draw(st.integers(0, 2)) == 0:
             return instr(draw(st.sampled_from(["SELF", "SELF%"])))
@@ -66,7 +84,21 @@ def node(draw, depth):
     # lambda contexts
     body = draw(seq(depth - 1))
     form = draw(st.sampled_from(["LAMBDA", "LAMBDA_REC", "PUSH", "PUSH-pair", "PUSH-some", "PUSH-left", "PUSH-right",
-                                 "PUSH-list", "PUSH-map"]))
+                                 "PUSH-list", "PUSH-map", "PUSH-deep", "PUSH-deep"]))
+    if form == "PUSH-deep":   # the lambda sits two or more constructors below the pushed type
+        INT = {"prim": "int"}
+        one = {"int": "1"}
+        t, v = draw(st.sampled_from([
+            ({"prim": "pair", "args": [INT, INT, LAM_T]}, lambda b: {"prim": "Pair", "args": [one, one, b]}),
+            ({"prim": "pair", "args": [INT, {"prim": "pair", "args": [INT, LAM_T]}]}, lambda b: {"prim": "Pair", "args": [one, {"prim": "Pair", "args": [one, b]}]}),
+            ({"prim": "pair", "args": [INT, INT, INT, LAM_T]}, lambda b: [one, one, one, b]),
+            ({"prim": "option", "args": [{"prim": "option", "args": [LAM_T]}]}, lambda b: {"prim": "Some", "args": [{"prim": "Some", "args": [b]}]}),
+            ({"prim": "list", "args": [{"prim": "option", "args": [LAM_T]}]}, lambda b: [{"prim": "None"}, {"prim": "Some", "args": [b]}]),
+            ({"prim": "map", "args": [INT, {"prim": "pair", "args": [INT, LAM_T]}]}, lambda b: [{"prim": "Elt", "args": [one, {"prim": "Pair", "args": [one, b]}]}]),
+            ({"prim": "or", "args": [UNIT, {"prim": "or", "args": [LAM_T, UNIT]}]}, lambda b: {"prim": "Right", "args": [{"prim": "Left", "args": [b]}]}),
+            ({"prim": "list", "args": [{"prim": "list", "args": [LAM_T]}]}, lambda b: [[b], []]),
+        ]))
+        return {"prim": "PUSH", "args": [t, v(body)]}
     if form in ("LAMBDA", "LAMBDA_REC"):
         return {"prim": form, "args": [UNIT, UNIT, body]}
     if form == "PUSH":
